@@ -342,6 +342,32 @@ def worlds(
     }
 
 
+# ----------------------------------------------------------------------------- generated plan-ahead policy (pbt/scripted.py)
+@st.composite
+def scripted_policy(draw, batching=None):
+    return {
+        "name": "Scripted",
+        "script": draw(st.lists(st.integers(0, 35), min_size=4, max_size=60)),
+        "batching": draw(st.booleans()) if batching is None else batching,
+        "lookahead": draw(st.sampled_from([0, 0, 5, 20])),
+    }
+
+
+@st.composite
+def scripted_worlds(draw, batching=None, **kw):
+    args = dict(feasible=True, conditionals="heavy", max_graphs=2, max_jobs=6, max_pools=2, max_workers=2, max_runtime=8,
+                release_kinds=("fixed", "fixed", "periodic", "poisson", "closed_loop"), max_releases=3,
+                flags=sim_flags(allow_timeout=True, allow_drop=False))
+    args.update(kw)
+    pol = draw(scripted_policy(batching=batching))
+    w = draw(worlds(policy=st.just(pol), **args))
+    if pol["batching"]:
+        for pr in w["profiles"]:
+            for s_ in pr["strategies"]:
+                s_["batch"] = draw(st.sampled_from([1, 2, 2, 3]))
+    return w
+
+
 # ----------------------------------------------------------------------------- planner policies (MILP)
 @st.composite
 def planner_policy(draw, names=("ILP", "TetriSched_Gurobi", "TetriSched_CPLEX"), enforce=None):
